@@ -118,9 +118,12 @@ func (c *CmdLine) Complete() ([]string, error) {
 
 // Consume applies the state of a nested processor
 func (c *CmdLine) Consume(lines []string) error {
+	// The output of a nested processor is a regular expression already, a single unit
+	// among the commands of this block. It is not a command word: no evasion patterns
+	// are inserted between its characters.
 	for _, line := range lines {
-		if err := c.ProcessLine(line); err != nil {
-			return err
+		if len(line) != 0 {
+			c.proc.lines = append(c.proc.lines, line)
 		}
 	}
 	return nil
